@@ -749,8 +749,8 @@ def _gen_stack(rng):
             sp = dict(like, id=len(files))
             if k == 'incong':
                 sp['rows' if rng.random() < 0.5 else 'cols'] = 3
-                sp['ipp'] = [9, 9, 9]
-                sp['acq'] = 9
+                sp['ipp'] = [9 + len(files)] * 3      # its own position and time point: never collides
+                sp['acq'] = 9 + len(files)
             else:
                 sp['tr'] = 2500
                 sp['ped'] = 'COL' if like['ped'] == 'ROW' else 'ROW'
